@@ -1,4 +1,5 @@
 import Gtree.Lemmas.Validate
+import Gtree.Lemmas.HeapSpread
 import Gtree.Lemmas.NetResult
 /-
   C14 — reader and writer failures are reported, never swallowed (model of the repaired code).
@@ -90,3 +91,19 @@ theorem C14_chain_nil_is_clean (todo : Nat) (workers : List Nat) (hw : ∀ w ∈
   (ginv_reach _ n (inv_init todo workers hw) (ginv_init todo workers) hr).2.s hret hn
 
 end Gtree.Net
+
+namespace Gtree
+/-- Tie to the source (heap mode, regenerated on every run): WRITE ERRORS IN THE TEXT PRINTER.  The translated
+    `defaultSpreaderSimple.spread` (the recursion `spreadBranch` over `fmt.Fprint`) on any heap that holds a forest,
+    with the caller's writer as a fault oracle (`failAt = some k`: the k-th `Write` from now fails after accepting
+    `short` bytes), returns an error exactly when a `Write` failed — the model's `emit` says so —, has handed the
+    writer exactly the bytes `emit` accepts (everything before the failing `Write`, then its short part), and issues
+    no `Write` after the failing one.  `C14_emit` and `C14_writer_iter` are therefore about this code. -/
+theorem C14_printer_reports_in_the_source (ds : SrcH.defaultSpreaderSimple) (h : SrcH.Heap) (ts : List T) (w : Go.Writer)
+    (rs : List Go.Ptr) (fuel : Nat) (hr : SrcH.ReprRoots h ts rs) (hf : sizeList ts ≤ fuel) :
+    ∃ w' e, SrcH.defaultSpreaderSimple.spread fuel h w ds rs = some (w', e) ∧
+      w'.out = w.out ++ (emit w.fault ((SrcH.readKids h ts rs 1).map lineOf) w.calls).1 ∧
+      e.isSome = (emit w.fault ((SrcH.readKids h ts rs 1).map lineOf) w.calls).2 := by
+  have := SrcH.writeAll_emit ((SrcH.readKids h ts rs 1).map lineOf) w
+  exact ⟨_, _, SrcH.spread_heap ds h ts w rs fuel hr hf, this.1, this.2.1⟩
+end Gtree
